@@ -6,9 +6,10 @@
 (* (the driver zips them: one record [a |-> event, b |-> event] per step)  *)
 (* and their projections - operation, outcome (ok / panic / abort),        *)
 (* returned values, and for every live handle its type, length, contents   *)
-(* and is_unique answer - must be equal at every step.  Addresses,         *)
-(* allocation ids and allocator events are configuration specific and are  *)
-(* not compared.                                                           *)
+(* capacity and is_unique answer, and the allocator anomalies of the step  *)
+(* (wrong free layout, free of nothing, guard / poison damage) - must be   *)
+(* equal at every step.  Addresses, allocation ids and the allocator       *)
+(* events themselves are configuration specific and are not compared.      *)
 (***************************************************************************)
 EXTENDS Integers, Sequences, FiniteSets, TLC, Json, IOUtils
 
@@ -22,7 +23,11 @@ HProj(e) ==
   IF e.op = "reset" THEN <<"reset", e.pid>>
   ELSE IF e.op = "end" THEN <<"end", Len(e.live) = 0>>
   ELSE <<e.op, e.h, e.out.k, e.out.v, e.out.new,
-         {<<o.h, o.ty, o.len, o.d, o.u>> : o \in RangeOf(e.obs)}>>
+         {<<o.h, o.ty, o.len, o.cap, o.d, o.u>> : o \in RangeOf(e.obs)},
+         \* allocator events are configuration specific, allocator ANOMALIES are not: a free with
+         \* a layout other than the allocated one, a free of nothing, damage to guards / poison
+         {m.e : m \in {x \in RangeOf(e.mem) : x.e \in {"bad_free", "redzone", "poison"}}}
+           \cup (IF \E m \in RangeOf(e.mem) : m.e = "free" /\ (m.size # m.rsize \/ m.align # m.ralign) THEN {"free_layout"} ELSE {})>>
 
 \* cursor / sink programs (events of vh-buf)
 CProj(e) ==
